@@ -405,6 +405,23 @@ func (e *Env) resolveModifies(entries []string) (targets []modTarget, all bool) 
 					for i := 0; i < st.NumFields(); i++ {
 						targets = append(targets, modTarget{key: g.fieldKey(T, i), whole: true})
 					}
+				} else if i := strings.LastIndex(x, "."); i > 0 && e.tryResolveType(x[:i]) != nil {
+					// a single field: pkg.Type.f
+					T := e.tryResolveType(x[:i])
+					st, ok := T.Underlying().(*types.Struct)
+					if !ok {
+						cxFail("modifies * except %s: not a struct type", x)
+					}
+					found := false
+					for j := 0; j < st.NumFields(); j++ {
+						if st.Field(j).Name() == x[i+1:] {
+							targets = append(targets, modTarget{key: g.fieldKey(T, j), whole: true})
+							found = true
+						}
+					}
+					if !found {
+						cxFail("modifies * except %s: no such field", x)
+					}
 				} else {
 					cxFail("modifies * except %s: not a ghost variable", x)
 				}
@@ -628,7 +645,9 @@ func (fc *FnCtx) applyContract(ins ssa.Instruction, c *Contract, name string, si
 	old := fc.cur.clone()
 	// frame
 	if !c.ModSet {
-		g.havocAll(fc.cur, name)
+		g.havocAllExcept(fc.cur, name, fc.privateSkip(ins))
+		// a callee cannot reach the caller's private local variable cells
+		fc.restorePrivate(old)
 	} else {
 		targets, all := env.resolveModifies(c.Modifies)
 		if all {
